@@ -16,8 +16,12 @@
     KGTimerHandler.cancel               -> `cancel`   (0 when delegate is None; else cancel the
                                            loop handle, clear delegate, 1)
     eval_sys_fn_cancel_timer (.timerc)  -> `timerc`
-    KGFnWrapper.__call__ (re-resolution)-> `Timer.ver`: the binding of the callback symbol, read
-                                           at every tick, changed by `redefine`
+    KGFnWrapper.__call__ (re-resolution)-> `Timer.ver`: the binding of the name the timer was
+                                           created on, read at every tick, changed by `redefine`
+    KGFnWrapper._apply (arity check)    -> `Timer.arity`: the tick calls the callback with NO
+                                           arguments; a binding that takes parameters raises
+                                           RuntimeError before its body runs: no tick, the runner's
+                                           except-branch stops the timer (first branch of `dispatch`)
 
   `Cfg.fix1/fix2 = true` is the repaired code (branch fix-c15); `false` is the pinned tree,
   kept so that the two defects can be stated and decided on concrete witnesses.
@@ -33,7 +37,7 @@ inductive Act
   | none
   | cancelSelf               -- `.timerc` on its own timer
   | cancelOther (j : Nat)    -- `.timerc` on timer `j`
-  | redefine (v : Nat)       -- rebinds its own callback symbol to version `v`
+  | redefine (v a : Nat)     -- rebinds its own callback symbol to function `v` of arity `a`
   | raise                    -- raises instead of returning
 deriving Repr, DecidableEq
 
@@ -51,6 +55,7 @@ structure Timer where
   start : Int := 0
   delegate : Option Nat := none    -- KGTimerHandler.delegate (id of a loop handle)
   ver : Nat := 0                   -- current binding of the callback symbol
+  arity : Nat := 0                 -- number of parameters of that binding
 
 structure Cfg where
   res : Nat        -- loop._clock_resolution
@@ -80,7 +85,7 @@ inductive Inp
   | create (interval : Nat)
   | advance (d : Nat)
   | timerc (k : Nat)
-  | redefine (k v : Nat)
+  | redefine (k v a : Nat)
   | dispatch (hid adv dur : Nat) (ret : Bool) (act : Act) (drift : Nat)
 deriving Repr, DecidableEq
 
@@ -100,8 +105,8 @@ def timerc (s : St) (k : Nat) : St :=
   let p := cancel s k
   { p.1 with log := .timerc k p.2 :: p.1.log }
 
-def redefine (s : St) (k v : Nat) : St :=
-  { s with tm := updTm s.tm k { s.tm k with ver := v }, log := .redefined k v :: s.log }
+def redefine (s : St) (k v a : Nat) : St :=
+  { s with tm := updTm s.tm k { s.tm k with ver := v, arity := a }, log := .redefined k v :: s.log }
 
 /-- the handle `run` is (re)scheduled with, computed from the clock value `f` the runner read;
     `call_later` reads the clock again `drift` later -/
@@ -131,7 +136,7 @@ def doAct (s : St) (k : Nat) : Act → St
   | .none => s
   | .cancelSelf => timerc s k
   | .cancelOther j => timerc s j
-  | .redefine v => redefine s k v
+  | .redefine v a => redefine s k v a
   | .raise => s
 
 /-- the loop runs pending handle `hid`; `none` = not a legal move of the loop -/
@@ -140,7 +145,16 @@ def dispatch (c : Cfg) (s : St) (hid adv dur : Nat) (ret : Bool) (act : Act) (dr
   match s.handles.find? (fun h => h.id == hid) with
   | none => none
   | some h =>
-    if (h.soon || decide (h.when < s.now + c.res)) && decide (c.minAdv ≤ adv) then
+    if (s.tm h.timer).arity ≠ 0 then
+      -- KGFnWrapper._apply: called with 0 arguments, expected `arity`: RuntimeError before the
+      -- body runs (no tick, the clock is not read: `minAdv` does not apply)
+      if h.soon || decide (h.when < s.now + c.res) then
+        let s1 : St := { s with handles := s.handles.filter (fun x => x.id != hid)
+                              , now := s.now + adv
+                              , log := .raised h.timer :: s.log }
+        some (if c.fix2 then (cancel s1 h.timer).1 else s1)
+      else none
+    else if (h.soon || decide (h.when < s.now + c.res)) && decide (c.minAdv ≤ adv) then
       let k := h.timer
       let t := s.tm k
       let s1 : St := { s with handles := s.handles.filter (fun x => x.id != hid)
@@ -162,7 +176,7 @@ def step (c : Cfg) (s : St) : Inp → St × Bool
   | .create i => (create s i, true)
   | .advance d => ({ s with now := s.now + d }, true)
   | .timerc k => (timerc s k, true)
-  | .redefine k v => if k < s.ntimers then (redefine s k v, true) else (s, false)
+  | .redefine k v a => if k < s.ntimers then (redefine s k v a, true) else (s, false)
   | .dispatch hid adv dur ret act drift =>
     match dispatch c s hid adv dur ret act drift with
     | some s' => (s', true)
@@ -248,7 +262,10 @@ def parseAct (s : String) : Option Act :=
   | ["self"] => some .cancelSelf
   | ["raise"] => some .raise
   | ["other", j] => j.toNat?.map .cancelOther
-  | ["redef", v] => v.toNat?.map .redefine
+  | ["redef", v] => v.toNat?.map (Act.redefine · 0)
+  | ["redef", v, a] => match v.toNat?, a.toNat? with
+    | some v, some a => some (.redefine v a)
+    | _, _ => none
   | _ => none
 
 def boolField (fs : List (String × String)) (k : String) : Option Bool :=
@@ -292,7 +309,12 @@ def handle (d : DState) (ws : List String) : DState × String :=
   | "redefine" :: rest =>
     let fs := fields rest
     match natField fs "k", natField fs "v" with
-    | some k, some v => reply d (step d.cfg d.st (.redefine k v))
+    | some k, some v =>
+      match fs.lookup "a" with
+      | none => reply d (step d.cfg d.st (.redefine k v 0))
+      | some t => match t.toNat? with
+        | some a => reply d (step d.cfg d.st (.redefine k v a))
+        | none => (d, "bad-op")
     | _, _ => (d, "bad-op")
   | "dispatch" :: rest =>
     let fs := fields rest
